@@ -82,7 +82,7 @@ func TemplateProgram(t *rapid.T) Program {
 	}
 	pos := func(lbl string) int64 { return int64(rapid.IntRange(1, 40).Draw(t, lbl)) }
 	fl := func(lbl string) string {
-		return rapid.SampledFrom([]string{"0.5", "1.5", "2.5", "-2.5", "3.75", "1e10", "0.1", "100.25", "-0.125", "7"}).Draw(t, lbl)
+		return rapid.SampledFrom([]string{"0.5", "1.5", "2.5", "-2.5", "3.75", "1e6", "0.1", "100.25", "-0.125", "7"}).Draw(t, lbl)
 	}
 	var sb strings.Builder
 	var body []string
